@@ -10,6 +10,9 @@ _EDL = ("rewriting pass leaves index arrays and shape expressions as they are "
         "(value-preserving: einsums inside them are simply not rewritten)")
 
 EXEMPT: dict[tuple[str, str], str] = {
+    ("R20-CONVERSE", "DistributedSendRefHolder.send.data"):
+        "documented in ListOfUsersCollector's docstring: the send-ref holder is "
+        "not a user of send.data (no data flows from it into the holder)",
     ("R13-CHILDREN", "UsersCollector/Call.function"): _NS,
     ("R13-CHILDREN", "ListOfUsersCollector/Call.function"): _NS,
     ("R13-CHILDREN-OVR", "DependencyMapper/Call.function"): _NS,
